@@ -235,8 +235,22 @@ func ruleReplayToleratesLaterState(c *Ctx) {
 				continue
 			}
 			sent := pkgLevelVar(info, eexpr)
+			inlineErr := ""
 			if sent == nil {
-				continue // a computed error: R9 decides the sentinels only
+				// an error made on the spot (errors.New, fmt.Errorf) equals no sentinel: never tolerated
+				if call, ok := ast.Unparen(eexpr).(*ast.CallExpr); ok {
+					if f := callee(info, call); f != nil && f.Pkg() != nil && (f.Pkg().Path() == "errors" && f.Name() == "New" || f.Pkg().Path() == "fmt" && f.Name() == "Errorf") {
+						inlineErr = exprStr(call)
+						if len(call.Args) > 0 {
+							if sv, ok := constString(info, call.Args[0]); ok {
+								inlineErr = f.Name() + "(" + strconvQuote(sv) + ")"
+							}
+						}
+					}
+				}
+				if inlineErr == "" {
+					continue // an error computed elsewhere (a library's, the parser's): not decided
+				}
 			}
 			nSent++
 			// does a condition that dominates the return depend on the state? can the loader take it?
@@ -268,6 +282,11 @@ func ruleReplayToleratesLaterState(c *Ctx) {
 				continue
 			}
 			nState++
+			if sent == nil {
+				key := funcName(h) + "→" + inlineErr
+				c.bad(key, r.Pos(), "the handler refuses with the error %s depending on the stored state (%s); an error made on the spot equals none of the sentinels the loader tolerates, so it is fatal: a command captured while AOFSHRINK runs is replayed on a later snapshot, where this refusal can occur although the command succeeded when it ran — the rewritten log then cannot be loaded and the server does not start", inlineErr, dep)
+				continue
+			}
 			key := funcName(h) + "→" + sent.Name()
 			why := toleratedWhy(sent.Name())
 			if strings.HasPrefix(why, "undecided") {
@@ -337,4 +356,11 @@ func isIdentName(s string) bool {
 		}
 	}
 	return true
+}
+
+func strconvQuote(s string) string {
+	if len(s) > 60 {
+		s = s[:60] + "…"
+	}
+	return "\"" + s + "\""
 }
